@@ -1423,6 +1423,15 @@ void svt_residual_kernel8bit_avx2(uint8_t *input, uint32_t input_stride, uint8_t
     }
 }
 
+// sum of the eight unsigned 32-bit partial sums of a register, in 64 bits (the total of a large area does not fit in 32)
+static INLINE uint64_t hadd32_to_u64_avx2(const __m256i src) {
+    const __m256i lo = _mm256_cvtepu32_epi64(_mm256_castsi256_si128(src));
+    const __m256i hi = _mm256_cvtepu32_epi64(_mm256_extracti128_si256(src, 1));
+    const __m256i s  = _mm256_add_epi64(lo, hi);
+    const __m128i t  = _mm_add_epi64(_mm256_castsi256_si128(s), _mm256_extracti128_si256(s, 1));
+    return (uint64_t)_mm_extract_epi64(t, 0) + (uint64_t)_mm_extract_epi64(t, 1);
+}
+
 uint64_t svt_spatial_full_distortion_kernel_avx2(uint8_t *input, uint32_t input_offset,
                                                  uint32_t input_stride, uint8_t *recon,
                                                  int32_t recon_offset, uint32_t recon_stride,
@@ -1458,7 +1467,7 @@ uint64_t svt_spatial_full_distortion_kernel_avx2(uint8_t *input, uint32_t input_
                 sum_h = _mm256_extracti128_si256(sum, 1);
                 s     = _mm_add_epi32(sum_l, sum_h);
                 s     = _mm_add_epi32(s, _mm_srli_si128(s, 4));
-                return _mm_cvtsi128_si32(s);
+                return (uint64_t)(uint32_t)_mm_cvtsi128_si32(s);
             }
         } else if (leftover == 8) {
             h = area_height;
@@ -1566,7 +1575,7 @@ uint64_t svt_spatial_full_distortion_kernel_avx2(uint8_t *input, uint32_t input_
         }
     }
 
-    return hadd32_avx2_intrin(sum);
+    return hadd32_to_u64_avx2(sum);
 }
 
 /************************************************
